@@ -153,6 +153,24 @@ MUTS = {
 
 ''', "")]),
     "R7-kubeinject-ignores-label": (INJ, [('''		if !injectRequired(IgnoredNamespaces.UnsortedList(), &Config{Policy: InjectionPolicyEnabled}, &pod.Spec, pod.ObjectMeta) {''', '''		if false && !injectRequired(IgnoredNamespaces.UnsortedList(), &Config{Policy: InjectionPolicyEnabled}, &pod.Spec, pod.ObjectMeta) {''')]),
+    "S1-kubeinject-ignored-namespaces-nil": (INJ, [('''		if !injectRequired(IgnoredNamespaces.UnsortedList(), &Config{Policy: InjectionPolicyEnabled}, &pod.Spec, decisionMeta) {''', '''		if !injectRequired(nil, &Config{Policy: InjectionPolicyEnabled}, &pod.Spec, decisionMeta) {''')]),
+    "S2-excludeInboundPort-already-excluded-return-removed": ("pkg/kube/inject/template.go", [('''		if port == portStr {
+			// The port is already excluded.
+			return excludedInboundPorts
+		}''', '''''')]),
+    "S3-selector-loops-guarded-by-nonempty-labels": (INJ, [('''	if useDefault {
+		for _, neverSelector := range config.NeverInjectSelector {''', '''	if useDefault && len(metadata.Labels) > 0 {
+		for _, neverSelector := range config.NeverInjectSelector {'''), ('''	if useDefault {
+		for _, alwaysSelector := range config.AlwaysInjectSelector {''', '''	if useDefault && len(metadata.Labels) > 0 {
+		for _, alwaysSelector := range config.AlwaysInjectSelector {''')]),
+    "S5-status-port-mesh-default-hardcoded": (WH, [('''DumpAppProbers(pod, probeStatusPort(pod.Annotations, req.meshConfig.GetDefaultConfig().GetStatusPort()))''', '''DumpAppProbers(pod, probeStatusPort(pod.Annotations, 15020))''')]),
+    "S6-webhook-drops-never-selector": (WH, [('''	if !injectRequired(IgnoredNamespaces.UnsortedList(), wh.Config, &pod.Spec, pod.ObjectMeta) {''', '''	if !injectRequired(IgnoredNamespaces.UnsortedList(), &Config{Policy: wh.Config.Policy, AlwaysInjectSelector: wh.Config.AlwaysInjectSelector}, &pod.Spec, pod.ObjectMeta) {''')]),
+    "S7-revert-F10h-otel": ("pkg/kube/inject/template.go", [('''		if c.Name != ProxyContainerName {
+			apps = append(apps, c)
+		}''', '''		apps = append(apps, c)''')]),
+    "S8-revert-F10i-kubeinject-namespace": (INJ, [('''		if decisionMeta.Namespace == "" {
+			decisionMeta.Namespace = namespace
+		}''', '''		_ = namespace''')]),
     "P7-status-annotation-not-stripped": (INJ, [('''	delete(pod.Annotations, annotation.SidecarStatus.Name)
 
 	return pod''', '''	return pod''')]),
@@ -165,6 +183,9 @@ def sh(cmd, **kw):
 
 def run(name):
     path, edits = MUTS[name]
+    if edits is None:
+        print(name, "not scripted (see notes)")
+        return
     sh("git -C /repo worktree remove --force %s" % WT)
     r = sh("git -C /repo worktree add --detach %s HEAD" % WT)
     if r.returncode != 0:
